@@ -689,6 +689,7 @@ fn fixed_errors_case<const N: usize, const M: usize>() -> bool {
 
 //@ prop: C01
 //@ also: C10
+//@ tier: thorough
 //@ drives: coding::reset_fixed_lpc_errors, SimdVec::{reset_from_slice, resize, as_ref, as_ref_simd, as_mut_simd}, arrayutils::pack_into_simd_vec
 //@ bound: a block of 6 samples (one 16-lane vector), every 25-bit sample value, scratch buffers holding arbitrary content from a previous 20-sample block (two vectors: the buffers shrink)
 //@ asserts: errors[0] is the signal; errors[k+1][t] = errors[k][t] - errors[k][t-1] for t > k; orders 2 and 4 equal the RFC 9639 fixed-predictor residuals; nothing of the previous block survives (lengths and contents depend on the arguments only)
@@ -696,6 +697,18 @@ fn fixed_errors_case<const N: usize, const M: usize>() -> bool {
 #[kani::unwind(40)]
 fn c01_fixed_residuals_from_dirty_scratch() {
     let c = fixed_errors_case::<6, 20>();
+    kani::cover!(c);
+}
+
+//@ prop: C01
+//@ also: C10
+//@ drives: coding::reset_fixed_lpc_errors, SimdVec::{reset_from_slice, resize, as_ref, as_ref_simd, as_mut_simd}, arrayutils::pack_into_simd_vec
+//@ bound: a block of 5 samples (one 16-lane vector), every 25-bit sample value, scratch buffers holding arbitrary content from a previous 3-sample block (the quick-tier version of c01_fixed_residuals_from_dirty_scratch, which needs > 10 min)
+//@ asserts: as c01_fixed_residuals_from_dirty_scratch
+#[kani::proof]
+#[kani::unwind(40)]
+fn c01_fixed_residuals_small() {
+    let c = fixed_errors_case::<5, 3>();
     kani::cover!(c);
 }
 
